@@ -496,7 +496,10 @@ PROPS['C09'].setdefault('scope', {})['OR-CALLBACK'] = (
     lambda f: f == 'Table.merge')
 PROPS['C13'].setdefault('scope', {})['OR-CALLBACK'] = (
     lambda f: f == 'Table.transform')
-PROPS['C06']['rules'] += [R4.rule_transpose_returns]
+PROPS['C06']['rules'] += [R4.rule_transpose_returns,
+                          R4.rule_dup_test_on_result]
+PROPS['C03']['rules'] += [R4.rule_convert_single_write]
+PROPS['C01']['rules'] += [rules_hdf5.rule_ag_spec]
 PROPS['C18']['rules'] += [R4.rule_mapping_separator]
 PROPS['C15']['rules'] += [R4.rule_record_metadata_required]
 PROPS['C20']['rules'] += [R4.rule_state_validated]
